@@ -233,6 +233,8 @@ class Module:
                 if len(path) > 2 and path[2][0] == "logical" and path[2][1] == "attribute":
                     attr = path[2][2]
         g = self.generic.get((cls, inst)) if cls is not None else None
+        if g is None and cls is not None and cls not in (0x01, 0x02, 0x06):
+            g = self.generic.get((cls, None)) or self.generic.get((None, None))      # wildcards (value sweeps)
         if g is not None:
             return g.handle(self, req, ctx, cls, inst, attr)
         if cls == 0x01 and inst == 1:
